@@ -415,7 +415,15 @@ impl<CS: BbsCiphersuite> PoKSignature<BBSplus<CS>> {
         let api_id = CS::API_ID_BLIND;
 
         let U = proof.m_cap.len();
-        let M = disclosed_indexes.len() + disclosed_commitment_indexes.len() + U - 1 - L;
+        // U + R = L + 1 + M: a claimed L that the proof cannot support is an error, not an underflow
+        let M = (disclosed_indexes.len() + disclosed_commitment_indexes.len() + U)
+            .checked_sub(1)
+            .and_then(|n| n.checked_sub(L))
+            .ok_or_else(|| {
+                Error::PoKSVerificationError(
+                    "L is larger than the number of messages in the proof".to_owned(),
+                )
+            })?;
 
         let (message_scalars, generators) = prepare_parameters::<CS>(
             Some(disclosed_messages),
